@@ -29,6 +29,8 @@ pub enum Diff {
     Nothing,
     Context(CtxSpec),
     Promise(u16),
+    /// the same promise value at another position of the aggregate: [.., Some(q), .., None, ..] against [.., None, .., Some(q), ..]
+    PromiseMove(u16, u16),
     /// another blinding => another commitment
     Commitment(u16),
     /// another value, SAME commitment (needs a blinding generator equal to h)
@@ -42,6 +44,7 @@ impl Diff {
             Diff::Nothing => "nothing",
             Diff::Context(_) => "context",
             Diff::Promise(_) => "promise",
+            Diff::PromiseMove(..) => "promise-moved",
             Diff::Commitment(_) => "commitment",
             Diff::WitnessValue(_) => "witness-value(same commitment)",
             Diff::WitnessBlinding(_) => "witness-blinding(same commitment)",
@@ -64,6 +67,7 @@ fn diff_strategy() -> impl Strategy<Value = Diff> {
         1 => Just(Diff::Nothing),
         2 => ctx_strategy().prop_map(Diff::Context),
         2 => any::<u16>().prop_map(Diff::Promise),
+        2 => (any::<u16>(), any::<u16>()).prop_map(|(a, b)| Diff::PromiseMove(a, b)),
         2 => any::<u16>().prop_map(Diff::Commitment),
         3 => any::<u16>().prop_map(Diff::WitnessValue),
         3 => any::<u16>().prop_map(Diff::WitnessBlinding),
@@ -123,6 +127,7 @@ fn build_runs<E: Engine>(spec: &HedgeSpec) -> Result<(Run<E>, Run<E>, Diff, Pede
     }
     let mut v2 = t.values.clone();
     let mut r2 = t.blindings.clone();
+    let mut p1 = t.promises.clone();
     let mut p2 = t.promises.clone();
     let mut ctx2 = spec.base.ctx.clone();
     let delta = Scalar::from(spec.delta | 1);
@@ -168,6 +173,23 @@ fn build_runs<E: Engine>(spec: &HedgeSpec) -> Result<(Run<E>, Run<E>, Diff, Pede
                 diff = Diff::Context(ctx2.clone());
             }
         },
+        Diff::PromiseMove(a, b) => {
+            let i = pick(*a, cfg.m);
+            let mut j = pick(*b, cfg.m);
+            if j == i {
+                j = (j + 1) % cfg.m;
+            }
+            let q = v2[i].min(v2[j]).min(1 + spec.delta % 7);
+            if cfg.m >= 2 && q >= 1 {
+                p1[i] = Some(q);
+                p1[j] = None;
+                p2 = p1.clone();
+                p2.swap(i, j);
+            } else {
+                ctx2.msgs.push((0, vec![3]));
+                diff = Diff::Context(ctx2.clone());
+            }
+        },
         Diff::Commitment(j) => {
             let j = pick(*j, cfg.m);
             r2[j][0] += delta;
@@ -197,7 +219,7 @@ fn build_runs<E: Engine>(spec: &HedgeSpec) -> Result<(Run<E>, Run<E>, Diff, Pede
         .map_err(|e| format!("{:?}", e))?;
         Ok(Run { st, w, ctx: ctx.clone() })
     };
-    let run1 = mk(&t.values, &t.blindings, &t.promises, &spec.base.ctx)?;
+    let run1 = mk(&t.values, &t.blindings, &p1, &spec.base.ctx)?;
     let run2 = mk(&v2, &r2, &p2, &ctx2)?;
     if matches!(diff, Diff::WitnessValue(_) | Diff::WitnessBlinding(_)) && run1.st.commitments != run2.st.commitments {
         return Err("generator bug: same-commitment construction produced different commitments".into());
@@ -488,7 +510,7 @@ pub fn def() -> PropertyDef {
         id: "C14",
         level: "fault_enumeration",
         rule: "Fault models of the external RNG {all-zero, constant byte, 8-byte period, counter, replayed ChaCha stream} x a pair of prover runs \
-               fed the SAME faulty stream and differing in exactly one of {nothing, transcript context, one promise, one commitment (other \
+               fed the SAME faulty stream and differing in exactly one of {nothing, transcript context, one promise, one promise value moved to another position of the aggregate ([Some(q), None] against [None, Some(q)]), one commitment (other \
                blinding), witness value with the SAME commitment (blinding generator g_last := h, so (v; r_last) and (v+-1; r_last-+1) collide), \
                witness blinding split between two generated components k1, k2 with the SAME commitment (g_k2 := g_k1)} at a generated position of the aggregate, with and without a seed. \
                Engine F reads every nonce as a coordinate (see C13). Oracle: 'nothing' => byte-identical proofs; otherwise the RNG-derived \
